@@ -321,7 +321,7 @@ func SolveAll(obls []*Obligation, opts solveOpts) {
 			retry = append(retry, o)
 		}
 	}
-	if len(retry) == 0 || len(retry) > 12 || opts.noRetry {
+	if len(retry) == 0 || len(retry) > 30 || opts.noRetry {
 		return
 	}
 	ropts := opts
